@@ -88,6 +88,9 @@ var reqHeaderPalette = [][]hdrKV{
 	{{"X-Forwarded-Proto", "https"}, {"X-Forwarded-Host", "shop.example"}},
 	{{"Via", "1.1 edge"}},
 	{{"Referer", "https://shop.example/a?b=c"}, {"Origin", "https://shop.example"}},
+	// header lines with an empty value are lines all the same
+	{{"X-Empty", ""}},
+	{{"X-Flags", ""}, {"X-Flags", "b"}},
 }
 
 var respHeaderPalette = [][]hdrKV{
@@ -104,6 +107,11 @@ var respHeaderPalette = [][]hdrKV{
 	{{"Date", "Mon, 01 Jan 2024 00:00:00 GMT"}},
 	{{"Content-Language", "en"}},
 	{{"X-Multi", "a"}, {"X-Multi", "b"}},
+	// present-but-empty is not the same as absent
+	{{"X-Empty-Resp", ""}},
+	{{"Content-Type", ""}},
+	{{"Content-Type", ""}, {"Content-Type", "application/octet-stream"}},
+	{{"X-Multi", ""}, {"X-Multi", "b"}, {"X-Multi", ""}},
 	bigCookies(48, 1000), // a response head of ~48 KB (session stores, CSP/Link lists): the head has no small limit
 	bigCookies(6, 9000),
 }
